@@ -32,6 +32,7 @@ class Interp(ExprMixin, CallMixin):
         self.depth = 0
         self._stub_cache = {}
         self.truth_tests = set()
+        self.none_tests = set()
         self._cur_site = ""
         self._pins = []
         self._global_cache = {}
@@ -210,6 +211,8 @@ class Interp(ExprMixin, CallMixin):
             a, b = b, a
         if isinstance(a, Sym):
             if isinstance(b, (Const, Sentinel, ClassV, ExtV)):
+                if self.cfg.record_truth_tests and isinstance(b, Const) and b.value is None:
+                    self.none_tests.add((a.tok, tuple(sorted(a.prov)), self._cur_site, self.via()))
                 if "nonsentinel" in a.tags and (isinstance(b, Sentinel) or (isinstance(b, Const) and b.value is None)):
                     return [(st, False)]
                 if isinstance(b, Sentinel) and b.truthy:
